@@ -375,10 +375,11 @@ pub fn exec_action(w: &Rc<World>, a: &Action) {
         Action::SetMaxHeight { n } => {
             let Some(st) = w.state() else { return skipped(w, "no state") };
             if in_cb { return skipped(w, "inside a callback") }
-            // always legal: at least the greatest height bound of anything ever built, plus slack
-            let limit = (w.max_hb_ever.get().max(1) as usize) + (*n % 48);
+            // always legal and never tighter than the limit the histories are generated for (128):
+            // tight limits are the business of the limits engine (C19); here the reconfiguration
+            // itself, at an arbitrary point, is the event of interest
+            let limit = 128 + (*n % 64);
             st.set_max_height_allowed(limit);
-            w.max_height.set(limit as i32);
             act(w, Act::SetMaxHeight { n: limit });
         }
         Action::X(_) => {}
